@@ -827,3 +827,12 @@ for k, a in enumerate(arrays):
 """, "expect": "to_npy and to_fits files read back with the same type, shape and bits (float64 extremes, uint16, uint64 beyond 2^32, float32)",
     "bound": "5 arrays x {no run number, run 0, run 7} x {npy, fits}", "function": "pyxel/outputs/utils.py"}
 AUDITS = {"lossless.readback": READBACK_AUDIT}
+
+
+def _run_mode_dispatch(u: Unit):
+    """C09.run_mode_dispatch (imported late)"""
+    from . import C09 as _C09
+    return _C09.run_mode_dispatch(u)
+
+
+unit("C19", "run_mode.dispatch")(_run_mode_dispatch)      # the output folder of a started simulation is created before its run
